@@ -119,6 +119,10 @@ def gen_jobs(logics, examples, tier, seed):
             # quantified sentences under modal operators: instances must be evaluated at the world of the node
             for a in ('e:MSxFx', 'e:MMSxFx', 'e:MVxCFxGx:MFm', 'e:LSxFx:MNFm', 'SxLFx:MSxFx', 'e:MKSxFxNFm'):
                 jobs.append(dict(logic=n, argstr=a, kind='modal-quantified', models=True))
+        if 'SelfIdentityClosure' in L['closure'] and L['modal']:
+            # identity is world-relative: a = b at one world says nothing about Fa / Fb at another
+            for a in ('e:Imn:MKFmNFn', 'e:MImn:KFmNFn', 'e:Imn:MNImn'):
+                jobs.append(dict(logic=n, argstr=a, kind='identity-worlds', models=True))
         if 'SelfIdentityClosure' in L['closure']:
             # identity: symmetry, single-occurrence substitution, transitivity through a mirror image
             for a in ('Imn:Inm', 'Fmn:Fmm:Imn', 'Imo:Inm:Ino', 'Fnm:Fmn:Imn', 'Gnn:Imn:Gmn', 'e:AaImn:Gmn:NGnn', 'Hnnn:Imn:Hmmm'):
@@ -206,7 +210,7 @@ def run(args) -> int:
                     continue
                 S = f'(fl_S FL_{i})'
                 sat = (f'unsaturated FLA_{i} {ob["nodes"]} {ob["ticked"]}, branch_okb FLA_{i} {ob["nodes"]} {ob["ticked"]}, '
-                       f'ident_unsaturated FLA_{i} {ob["nodes"]}')
+                       f'List.app (ident_unsaturated FLA_{i} {ob["nodes"]}) (if ident_conflict FLA_{i} {ob["nodes"]} then [(0, 99)] else [])')
                 if ob.get('model') is None:
                     # the model builder raised ModelValueError for this tableau: no model to evaluate, saturation only
                     exprs.append(f'(@nil nat, true, {sat})')
@@ -226,6 +230,8 @@ def run(args) -> int:
             cm = m.group(2) == 'true'
             unsat = [(int(a), int(b_)) for a, b_ in re.findall(r'\((\d+), (\d+)\)', m.group(3))]
             ident = [(int(a), int(b_)) for a, b_ in re.findall(r'\((\d+), (\d+)\)', m.group(5))]
+            id_conflict = (0, 99) in ident           # the branch would close under the full identity rule
+            ident = [x for x in ident if x != (0, 99)]
             unsat_all = unsat + ident
             if m.group(4) == 'true' and has_thm.get(n):
                 chk.count('branches', 'under theorem C02_saturated_branch')
@@ -246,7 +252,10 @@ def run(args) -> int:
             if ob.get('model') is None:
                 # ModelValueError while reading this tableau's open branches
                 rep.update(model_error=r.get('model_error'), tb=r.get('model_tb'))
-                if not unsat_all:
+                explained = bool(unsat) or (bool(ident) and id_conflict)
+                if not explained:
+                    # saturated - or unsaturated only in ways that do not make the branch unsatisfiable: the refusal is
+                    # not explained by a missing rule instance
                     model_err_unattributed.setdefault((n, r['argstr'], order), rep)
                     continue
                 model_err_attributed.add((n, r['argstr'], order))
